@@ -129,7 +129,7 @@ def _diff(a, b):
 
 def run(ctx):
     quick = ctx.tier == 'quick'
-    plan = {'dev': 2, 'build': 1, 'dev-j4': 1, 'build-j4': 0} if quick else {'dev': 3, 'build': 2, 'dev-j4': 2, 'build-j4': 2}
+    plan = {'dev': 2, 'build': 1, 'dev-j4': 1, 'build-j4': 0} if quick else {'dev': 3, 'build': 2, 'dev-j4': 2, 'build-j4': 1}
     if ctx.opts.get('depth'): plan = {'dev': int(ctx.opts['depth'])}
     feats = w1.FEATURES
     jobs, vecs = [], set()
@@ -139,6 +139,9 @@ def run(ctx):
         for L in range(1, d + 1):
             for h in itertools.product(feats, repeat=L):
                 if quick and L == 2 and not ((h[0] in sharp and h[1] in sharp) or h[0] == h[1]): continue
+                # thorough: the full product at depth 2 in develop mode; sharp pairs in the other modes; depth 3 over four features
+                if not quick and L == 2 and mode != 'dev' and not ((h[0] in sharp and h[1] in sharp) or h[0] == h[1]): continue
+                if not quick and L == 3 and not set(h) <= {'libscript', 'lib2', 'reparam', 'twovar'}: continue
                 jobs.append((h, mode))
                 vecs.add((vec_key(apply(h)), mode.split('-')[0]))
     ctx.log('%d histories (%s), %d distinct (feature vector, mode) clean builds' % (len(jobs), plan, len(vecs)))
@@ -159,7 +162,7 @@ def run(ctx):
         rule='one history = edits applied one by one to a persistent workspace, each followed by a real incremental bob run (result compared with the clean build of the '
              'same feature vector) and an immediate repeat (must execute nothing); non-trivial = states where the incremental run executed some but not all steps',
         exhaustive=True, samples=[dict(mode='dev', history=['srcmod', 'srcmod']), dict(mode='build', history=['lib2'])],
-        bounds=dict(features=feats, depth_per_mode=plan, quick_pairs='pairs over %s plus every revert pair' % sharp if quick else 'all'), histories=len(jobs), clean_builds=len(vecs)),
+        bounds=dict(features=feats, depth_per_mode=plan, quick_pairs='pairs over %s plus every revert pair' % sharp if quick else 'dev: all pairs, depth 3 over libscript/lib2/reparam/twovar; other modes: pairs over %s' % sharp), histories=len(jobs), clean_builds=len(vecs)),
         assumptions=['step scripts are deterministic and content revealing by construction', 'every edit changes the stat data of the edited file (logical mtime clock)',
                      'the import SCM is non-deterministic by design: its checkout may re-run on a repeated build; the deterministic checkoutScript of lib2 may not'])
 
